@@ -2,7 +2,7 @@
    // comments).  Model: Model/Layout.v (the repaired tokenizer, Token.end / is_connected,
    CustomOrder).  Only statements, closed by `exact`, each followed by Print Assumptions. *)
 From Coq Require Import ZArith String List Bool Ascii.
-From JMCV Require Import Model.Layout Proofs.LayoutBasic Proofs.LayoutAdj Proofs.LayoutAdj2 Proofs.LayoutSim Proofs.LayoutSim2 Proofs.LayoutDeep Proofs.LayoutGlue.
+From JMCV Require Import Model.Layout Model.LayoutArg Proofs.LayoutBasic Proofs.LayoutAdj Proofs.LayoutAdj2 Proofs.LayoutSim Proofs.LayoutSim2 Proofs.LayoutDeep Proofs.LayoutGlue Proofs.LayoutArg.
 Import ListNotations.
 Open Scope Z_scope.
 
@@ -161,3 +161,91 @@ Proof.
     + repeat (apply rl_code; [reflexivity|discriminate|]). apply rl_nil.
   - vm_compute. reflexivity.
 Qed.
+
+(* ---------------------------------------------------------------------------------------------------------------
+   Strengthening round 4: the TEXT of a call argument (Model/LayoutArg.v).  A @lazy call substitutes the text of each
+   argument for `$param` in the function body - also where `$param` stands inside a string literal of the body
+   (`{CustomName:'$name'}`, `tellraw @a "marked $sel"`), where the text reaches the output verbatim.
+
+   C15_argument_text.  `argument_text` = PreFunction.__argument_text for a plain argument: every bracket token is
+   written as its CLEANED text (`clean_paren` = utils.clean_up_paren_token: the canonical re-spelling of the token
+   tree of the bracket - content re-tokenised, tokens concatenated without the layout between them, nested
+   brackets recursively, strings re-quoted), tokens that were apart in the source are separated by ONE blank
+   (is_connected), connected ones by nothing.  For all programs, re-layouts, modes, start positions and depths
+   (fuel = depth of the token tree explored): every contiguous run of tokens of every statement - every argument
+   of every call is such a run - has the SAME argument text in the program and in its re-layout (or none on both
+   sides: the content of some bracket is rejected, out of scope, or deeper than the fuel). *)
+Theorem C15_argument_text :
+  forall cf fuel es allow_last allow_sc line col line' col' s s' f sts,
+    relayout MCode s s' ->
+    parse_st [] cf es allow_sc line col s = Ok f -> s_ev f = false -> finish [] es allow_last f = Ok sts ->
+    exists f' sts',
+      parse_st [] cf es allow_sc line' col' s' = Ok f' /\ s_ev f' = false /\ finish [] es allow_last f' = Ok sts' /\
+      Forall2 (fun toks toks' => forall i n,
+                 ok_of (argument_text cf true fuel (run_of i n toks)) = ok_of (argument_text cf true fuel (run_of i n toks')))
+              sts sts'.
+Proof. exact relayout_argument_text. Qed.
+Print Assumptions C15_argument_text.
+
+(* C15_clean_up_paren_token.  The same for `clean_up_paren_token` on its own, in either mode (is_nbt), for every
+   bracket token of every statement: this is the text that selectors, NBT/JSON payloads, block states, item
+   components, vanilla-macro arguments and scoreboard arguments are emitted with. *)
+Theorem C15_clean_up_paren_token :
+  forall cf fuel nbt es allow_last allow_sc line col line' col' s s' f sts,
+    relayout MCode s s' ->
+    parse_st [] cf es allow_sc line col s = Ok f -> s_ev f = false -> finish [] es allow_last f = Ok sts ->
+    exists f' sts',
+      parse_st [] cf es allow_sc line' col' s' = Ok f' /\ s_ev f' = false /\ finish [] es allow_last f' = Ok sts' /\
+      Forall2 (Forall2 (fun t t' => t_ty t = t_ty t' /\
+                                    (is_paren_ty (t_ty t) = true ->
+                                     ok_of (clean_paren cf true fuel nbt t) = ok_of (clean_paren cf true fuel nbt t'))))
+              sts sts'.
+Proof. exact relayout_clean_paren. Qed.
+Print Assumptions C15_clean_up_paren_token.
+
+(* The two theorems are about the functions with strict = true (a bracket content outside the scope - s_ev - gives
+   no text).  The correspondence compares the real compiler with strict = false; where the strict function gives a
+   text, the faithful one gives the same text. *)
+Theorem C15_argument_text_faithful_in_scope :
+  forall cf fuel toks x, argument_text cf true fuel toks = Ok x -> argument_text cf false fuel toks = Ok x.
+Proof. exact argument_text_strict_ok. Qed.
+Print Assumptions C15_argument_text_faithful_in_scope.
+
+(* The re-spelling of a string token in an argument text (`py_repr` = Python's repr() on ASCII text) has exactly the
+   length that Token.length / Token.end - hence is_connected - assume for it (`repr_len`, Model/Layout.v): the two
+   hand-written models of repr() agree. *)
+Theorem C15_repr_length_consistent : forall s, len (py_repr s) = repr_len s.
+Proof. exact py_repr_len. Qed.
+Print Assumptions C15_repr_length_consistent.
+
+(* C15_arrow_argument_text_refuted.  For an ARROW-FUNCTION argument `(params)=>{body}` the pinned code substitutes
+   the raw source text of the parameter bracket and of the body (`arrow_text`): harmless where `$param` is used as
+   code (the text is tokenised again: C15_layout), but not where it is spliced into a string literal - the same
+   call in two layouts gives two different texts.  (reports/C15.md: finding C15-arrow-function-argument-in-string.) *)
+Theorem C15_arrow_argument_text_refuted :
+  exists s s' toks toks',
+    relayout MCode s s' /\
+    parse [] false false false false 1 1 s = Ok [toks] /\ parse [] false false false false 1 1 s' = Ok [toks'] /\
+    (exists x x', arrow_of toks = Some x /\ arrow_of toks' = Some x' /\ x <> x').
+Proof. exact arrow_text_layout_dependent. Qed.
+Print Assumptions C15_arrow_argument_text_refuted.
+
+(* Non-vacuity: the two arguments of `mark( { "text" : "a" } , @e[ type = pig , limit = 1 ] )`, written over three
+   lines with a comment, are accepted in scope and have the texts `{"text":"a"}` and `@e[type=pig,limit=1]`. *)
+Example C15_argument_text_nonvacuous :
+  match parse_st [] false false false 1 1 (s2l "{ ""text"" :
+  ""a"" } , @e[ type = pig , // c
+ limit = 1 ]") with
+  | Ok st =>
+      match finish [] false false st with
+      | Ok [toks] =>
+          negb (s_ev st) &&
+          match argument_text false true 4 (run_of 0 1 toks), argument_text false true 4 (run_of 2 2 toks) with
+          | Ok x, Ok y => str_eqb x (s2l "{""text"":""a""}") && str_eqb y (s2l "@e[type=pig,limit=1]")
+          | _, _ => false
+          end
+      | _ => false
+      end
+  | Err _ => false
+  end = true.
+Proof. vm_compute. reflexivity. Qed.
